@@ -107,10 +107,19 @@ func multiPolygon(s simplifier, mp orb.MultiPolygon) orb.MultiPolygon {
 }
 
 func collection(s simplifier, c orb.Collection) orb.Collection {
+	count := 0
 	for i := range c {
-		c[i] = simplify(s, c[i])
+		g := simplify(s, c[i])
+		if g == nil {
+			// a member that simplified to nothing is dropped (like a ring of a
+			// polygon or a polygon of a multi polygon), never kept as a nil entry
+			continue
+		}
+
+		c[count] = g
+		count++
 	}
-	return c
+	return c[:count]
 }
 
 func runSimplify(s simplifier, ls orb.LineString, area bool) orb.LineString {
